@@ -92,6 +92,9 @@ func (hs *serverHandshakeStateTLS13) handshake() error {
 	if _, err := c.flush(); err != nil {
 		return err
 	}
+	if err := verifHookAfterServerFlight13(hs); err != nil {
+		return err
+	}
 	if err := hs.readClientCertificate(); err != nil {
 		return err
 	}
